@@ -190,3 +190,27 @@ Proofs/C09Facts.vos Proofs/C09Facts.vok Proofs/C09Facts.required_vos: Proofs/C09
 Props/C09.vo Props/C09.glob Props/C09.v.beautified Props/C09.required_vo: Props/C09.v Base/Result.vo Base/AstOp.vo Model/Ast.vo Model/FM.vo Model/PFM.vo Format/Xml.vo Format/Ref.vo Proofs/FideFacts.vo Proofs/RefFacts.vo Proofs/C09Facts.vo Format/Json.vo Format/Glencoe.vo Format/Afm.vo
 Props/C09.vio: Props/C09.v Base/Result.vio Base/AstOp.vio Model/Ast.vio Model/FM.vio Model/PFM.vio Format/Xml.vio Format/Ref.vio Proofs/FideFacts.vio Proofs/RefFacts.vio Proofs/C09Facts.vio Format/Json.vio Format/Glencoe.vio Format/Afm.vio
 Props/C09.vos Props/C09.vok Props/C09.required_vos: Props/C09.v Base/Result.vos Base/AstOp.vos Model/Ast.vos Model/FM.vos Model/PFM.vos Format/Xml.vos Format/Ref.vos Proofs/FideFacts.vos Proofs/RefFacts.vos Proofs/C09Facts.vos Format/Json.vos Format/Glencoe.vos Format/Afm.vos
+Proofs/UvlFacts.vo Proofs/UvlFacts.glob Proofs/UvlFacts.v.beautified Proofs/UvlFacts.required_vo: Proofs/UvlFacts.v Base/Result.vo Base/Str.vo Base/AstOp.vo Gen/Tables_core.vo Model/Ast.vo Model/FM.vo Model/PFM.vo Model/Queries.vo Model/Sem.vo Format/Json.vo Format/Glencoe.vo Format/Xml.vo Gen/Tables_uvl.vo Format/Uvl.vo Proofs/JsonFacts.vo
+Proofs/UvlFacts.vio: Proofs/UvlFacts.v Base/Result.vio Base/Str.vio Base/AstOp.vio Gen/Tables_core.vio Model/Ast.vio Model/FM.vio Model/PFM.vio Model/Queries.vio Model/Sem.vio Format/Json.vio Format/Glencoe.vio Format/Xml.vio Gen/Tables_uvl.vio Format/Uvl.vio Proofs/JsonFacts.vio
+Proofs/UvlFacts.vos Proofs/UvlFacts.vok Proofs/UvlFacts.required_vos: Proofs/UvlFacts.v Base/Result.vos Base/Str.vos Base/AstOp.vos Gen/Tables_core.vos Model/Ast.vos Model/FM.vos Model/PFM.vos Model/Queries.vos Model/Sem.vos Format/Json.vos Format/Glencoe.vos Format/Xml.vos Gen/Tables_uvl.vos Format/Uvl.vos Proofs/JsonFacts.vos
+Props/C01.vo Props/C01.glob Props/C01.v.beautified Props/C01.required_vo: Props/C01.v Base/Result.vo Model/Ast.vo Model/FM.vo Model/PFM.vo Model/Sem.vo Format/Uvl.vo Proofs/UvlFacts.vo
+Props/C01.vio: Props/C01.v Base/Result.vio Model/Ast.vio Model/FM.vio Model/PFM.vio Model/Sem.vio Format/Uvl.vio Proofs/UvlFacts.vio
+Props/C01.vos Props/C01.vok Props/C01.required_vos: Props/C01.v Base/Result.vos Model/Ast.vos Model/FM.vos Model/PFM.vos Model/Sem.vos Format/Uvl.vos Proofs/UvlFacts.vos
+Props/C04.vo Props/C04.glob Props/C04.v.beautified Props/C04.required_vo: Props/C04.v Base/Result.vo Base/Str.vo Model/Ast.vo Model/FM.vo Model/PFM.vo Format/Uvl.vo Proofs/UvlFacts.vo
+Props/C04.vio: Props/C04.v Base/Result.vio Base/Str.vio Model/Ast.vio Model/FM.vio Model/PFM.vio Format/Uvl.vio Proofs/UvlFacts.vio
+Props/C04.vos Props/C04.vok Props/C04.required_vos: Props/C04.v Base/Result.vos Base/Str.vos Model/Ast.vos Model/FM.vos Model/PFM.vos Format/Uvl.vos Proofs/UvlFacts.vos
+Props/C02.vo Props/C02.glob Props/C02.v.beautified Props/C02.required_vo: Props/C02.v Base/Result.vo Model/Ast.vo Model/FM.vo Model/PFM.vo Format/Json.vo Format/Glencoe.vo Format/Xml.vo Format/Uvl.vo Format/Afm.vo Proofs/JsonFacts.vo Proofs/GlencoeFacts.vo Proofs/FideFacts.vo Proofs/FamaFacts.vo Proofs/UvlFacts.vo Proofs/AfmFacts.vo
+Props/C02.vio: Props/C02.v Base/Result.vio Model/Ast.vio Model/FM.vio Model/PFM.vio Format/Json.vio Format/Glencoe.vio Format/Xml.vio Format/Uvl.vio Format/Afm.vio Proofs/JsonFacts.vio Proofs/GlencoeFacts.vio Proofs/FideFacts.vio Proofs/FamaFacts.vio Proofs/UvlFacts.vio Proofs/AfmFacts.vio
+Props/C02.vos Props/C02.vok Props/C02.required_vos: Props/C02.v Base/Result.vos Model/Ast.vos Model/FM.vos Model/PFM.vos Format/Json.vos Format/Glencoe.vos Format/Xml.vos Format/Uvl.vos Format/Afm.vos Proofs/JsonFacts.vos Proofs/GlencoeFacts.vos Proofs/FideFacts.vos Proofs/FamaFacts.vos Proofs/UvlFacts.vos Proofs/AfmFacts.vos
+Proofs/C10Facts.vo Proofs/C10Facts.glob Proofs/C10Facts.v.beautified Proofs/C10Facts.required_vo: Proofs/C10Facts.v Base/Result.vo Base/Str.vo Base/AstOp.vo Gen/Tables_core.vo Model/Ast.vo Model/FM.vo Model/Ctc.vo Model/Queries.vo Model/Sem.vo Format/Export.vo Proofs/FMFacts.vo Proofs/QueriesFacts.vo Proofs/C14Facts.vo Proofs/C18Facts.vo
+Proofs/C10Facts.vio: Proofs/C10Facts.v Base/Result.vio Base/Str.vio Base/AstOp.vio Gen/Tables_core.vio Model/Ast.vio Model/FM.vio Model/Ctc.vio Model/Queries.vio Model/Sem.vio Format/Export.vio Proofs/FMFacts.vio Proofs/QueriesFacts.vio Proofs/C14Facts.vio Proofs/C18Facts.vio
+Proofs/C10Facts.vos Proofs/C10Facts.vok Proofs/C10Facts.required_vos: Proofs/C10Facts.v Base/Result.vos Base/Str.vos Base/AstOp.vos Gen/Tables_core.vos Model/Ast.vos Model/FM.vos Model/Ctc.vos Model/Queries.vos Model/Sem.vos Format/Export.vos Proofs/FMFacts.vos Proofs/QueriesFacts.vos Proofs/C14Facts.vos Proofs/C18Facts.vos
+Proofs/C11Facts.vo Proofs/C11Facts.glob Proofs/C11Facts.v.beautified Proofs/C11Facts.required_vo: Proofs/C11Facts.v Base/Result.vo Base/Str.vo Base/AstOp.vo Gen/Tables_core.vo Model/Ast.vo Model/FM.vo Model/Ctc.vo Model/Queries.vo Model/Sem.vo Format/Glencoe.vo Format/Uvl.vo Format/Export.vo Proofs/FMFacts.vo Proofs/QueriesFacts.vo Proofs/C14Facts.vo Proofs/C18Facts.vo Proofs/C10Facts.vo
+Proofs/C11Facts.vio: Proofs/C11Facts.v Base/Result.vio Base/Str.vio Base/AstOp.vio Gen/Tables_core.vio Model/Ast.vio Model/FM.vio Model/Ctc.vio Model/Queries.vio Model/Sem.vio Format/Glencoe.vio Format/Uvl.vio Format/Export.vio Proofs/FMFacts.vio Proofs/QueriesFacts.vio Proofs/C14Facts.vio Proofs/C18Facts.vio Proofs/C10Facts.vio
+Proofs/C11Facts.vos Proofs/C11Facts.vok Proofs/C11Facts.required_vos: Proofs/C11Facts.v Base/Result.vos Base/Str.vos Base/AstOp.vos Gen/Tables_core.vos Model/Ast.vos Model/FM.vos Model/Ctc.vos Model/Queries.vos Model/Sem.vos Format/Glencoe.vos Format/Uvl.vos Format/Export.vos Proofs/FMFacts.vos Proofs/QueriesFacts.vos Proofs/C14Facts.vos Proofs/C18Facts.vos Proofs/C10Facts.vos
+Props/C10.vo Props/C10.glob Props/C10.v.beautified Props/C10.required_vo: Props/C10.v Base/Result.vo Model/Ast.vo Model/FM.vo Model/Queries.vo Model/Sem.vo Format/Export.vo Proofs/C18Facts.vo Proofs/C10Facts.vo
+Props/C10.vio: Props/C10.v Base/Result.vio Model/Ast.vio Model/FM.vio Model/Queries.vio Model/Sem.vio Format/Export.vio Proofs/C18Facts.vio Proofs/C10Facts.vio
+Props/C10.vos Props/C10.vok Props/C10.required_vos: Props/C10.v Base/Result.vos Model/Ast.vos Model/FM.vos Model/Queries.vos Model/Sem.vos Format/Export.vos Proofs/C18Facts.vos Proofs/C10Facts.vos
+Props/C11.vo Props/C11.glob Props/C11.v.beautified Props/C11.required_vo: Props/C11.v Base/Result.vo Model/Ast.vo Model/FM.vo Model/Queries.vo Model/Sem.vo Format/Export.vo Proofs/C18Facts.vo Proofs/C11Facts.vo
+Props/C11.vio: Props/C11.v Base/Result.vio Model/Ast.vio Model/FM.vio Model/Queries.vio Model/Sem.vio Format/Export.vio Proofs/C18Facts.vio Proofs/C11Facts.vio
+Props/C11.vos Props/C11.vok Props/C11.required_vos: Props/C11.v Base/Result.vos Model/Ast.vos Model/FM.vos Model/Queries.vos Model/Sem.vos Format/Export.vos Proofs/C18Facts.vos Proofs/C11Facts.vos
